@@ -52,6 +52,13 @@ void apiCase(size_t idx) {
 	NiShape* s = nif.GetShapes().at(0);
 	// buildApiModel has called CreateSkinning + weights + UpdateSkinPartitions
 	if (!checkNow(nif, s, true, what, "CreateSkinning+UpdateSkinPartitions")) return;
+	if (idx % 5 == 2 && permutePartitionVertexMaps(nif, rng) > 0) {
+		// the same partitions with their vertex maps in arbitrary order (as other tools write them): still valid, and every later operation starts from them
+		what += " [partition vertex maps permuted]";
+		R_caseDesc(what);
+		if (!checkNow(nif, s, true, what, "permuted-vertex-maps")) return;
+		checkReload(nif, what, "permuted-vertex-maps");
+	}
 	std::vector<Triangle> tris;
 	s->GetTriangles(tris);
 	// re-assignment of triangles to partitions, including unassigned (-1) and ids past the end
